@@ -404,3 +404,24 @@ def exact_fit_sectors(bps, bpc, start, want_bits, span=6000, fats="-", variant="
         if spf * bps_ * 8 // bits == clusters + 2:
             return start + i
     return None
+
+
+def sectors_for_clusters(bps, bpc, clusters, start, span=4000, fat="-", fats="-", variant="default"):
+    """smallest total sector count >= start for which the library's own format (boot-sector hook) yields a volume with exactly
+    [clusters] data clusters, or None; returns (total_sectors, FAT bits the boot sector implies)"""
+    lines = ["%s %d %s %s - %s - - -" % (bps, start + i, bpc, fat, fats) for i in range(span)]
+    out = exec_raw(["fmtbs"], "\n".join(lines) + "\n", variant=variant).split("\n")[:-1]
+    for i, o in enumerate(out):
+        t = o.split(" ")
+        if t[0] != "ok":
+            continue
+        b = bytes.fromhex(t[-1])
+        bps_ = int.from_bytes(b[11:13], "little"); spc = b[13]; res = int.from_bytes(b[14:16], "little"); nf = b[16]
+        root = int.from_bytes(b[17:19], "little")
+        ts = int.from_bytes(b[19:21], "little") or int.from_bytes(b[32:36], "little")
+        spf = int.from_bytes(b[22:24], "little") or int.from_bytes(b[36:40], "little")
+        rds = (root * 32 + bps_ - 1) // bps_
+        n = (ts - res - nf * spf - rds) // spc
+        if n == clusters:
+            return start + i, (12 if n < 4085 else 16 if n < 65525 else 32)
+    return None
